@@ -227,21 +227,23 @@ ROUTES_W = ["vio", "fd", "fdk", "path", "embw44"]
 EMBED_OK = (1, 2, 3, 0x13)      # WAV, AIFF, AU, WAVEX (the library's embedding whitelist is what it is: failures are allowed by the spec)
 
 
-def c14_scenario(S, fmt, ch, rate, rng, N=None):
+def c14_scenario(S, fmt, ch, rate, rng, N=None, rich=False):
     T = gen_core.type_for(fmt)
     lc = scen.lossless_class(fmt, T)
     cls, par = lc if lc else ("noise", 0)
     B = scen.block_hint(fmt, ch, rate)
     N = N or (2 * B + 1 if B > 1 else 41)
     seed = rng.randint(1, 10 ** 6)
-    S.scn(fmt="0x%x" % fmt, ch=ch, T=T, kind="c14")
+    S.scn(fmt="0x%x" % fmt, ch=ch, T=T, kind="c14", **({"rich": 1} if rich else {}))
     ofmt = fmt if scen.major(fmt) == scen.RAW else 0
+    # rich: application chunks and a title in front of the audio (what a reader has to skip on a route that cannot seek)
+    pre = ["setchunk 0 7a7a7a7a 37 11", "setstr 0 1 5469746c65", "setchunk 0 71717171 4 12"] if rich else []
     # written through every route: byte identical files (validator: SameBytesOK), descriptor closed iff close_desc
     for i, rt in enumerate(ROUTES_W):
         if scen.major(fmt) == scen.SD2 and rt != "path":
             continue
-        S.add("file %d new" % (i + 1), "open 0 %s w %d %d %d %d" % (rt, i + 1, fmt, ch, rate),
-              "write 0 %s f %d gen %s %d %d" % (T, N, cls, seed, par), "close 0")
+        S.add("file %d new" % (i + 1), "open 0 %s w %d %d %d %d" % (rt, i + 1, fmt, ch, rate), *pre)
+        S.add("write 0 %s f %d gen %s %d %d" % (T, N, cls, seed, par), "close 0")
     if scen.major(fmt) == scen.SD2:
         return
     # the same bytes read through every route: same info and samples (shared content in the validator)
